@@ -610,6 +610,7 @@ func caseVH(h *H, r *hlib.Rng, variant string) {
 	useKeys(s.tp.own)
 	var baseErr error
 	basePanic := guard(func() { baseErr = vhChain.hc.VerifC08VerifyHeader(s.wo, vhParent, false, 1<<62) })
+	h.rep.Count(fmt.Sprintf("vh-baseline-accepted:%v", baseErr == nil && basePanic == ""))
 	if plan.mut != nil {
 		plan.mut.apply(s, r)
 	}
@@ -755,7 +756,7 @@ func caseUncle(h *H, r *hlib.Rng, variant string) {
 		powid, mut, invalidAddr = 3, nil, false
 	}
 	parent := unAnc[len(unAnc)-1]
-	sealZeroShares = variant == "kawpow-share"
+	sealZeroShares = variant == "kawpow-share" || (powid == 1 && r.Chance(80)) // a kawpow share needs share target > block target
 	s := buildSealed(r, powid, uptn, parent.Hash(), parent.Hash(), 0)
 	sealZeroShares = false
 	wh := s.wo.WorkObjectHeader()
@@ -841,6 +842,7 @@ func caseUncle(h *H, r *hlib.Rng, variant string) {
 		return err, p
 	}
 	baseErr, basePanic := run()
+	h.rep.Count(fmt.Sprintf("uncle-baseline-accepted:%v", baseErr == nil && basePanic == ""))
 	if mut != nil {
 		mut.apply(s, r)
 		mname = mut.name
